@@ -5,9 +5,10 @@
     `None` for an all-default subtree, the empty root for an all-default nest;
   * `Tensor._calc_shape` (tensor.py:305-322) and `Fiber.getShape` of the un-owned
     fibers `_makeFiber` builds (fiber.py:2600-2660);
-  * `Fiber.uncompress` / `Fiber._fillempty` (fiber.py:2887-2961) AS WRITTEN: the union
-    with a dense "shape fiber", and the walk down `payloads[0]` to find the leaf
-    default, which fails (`IndexError`) on a fiber without payloads;
+  * `Fiber.uncompress` / `Fiber._fillempty` (fiber.py:2887-2961) AS WRITTEN (after fix
+    cc544e6): the union with a dense "shape fiber", and the walk down `payloads[0]` to find
+    the leaf default, which stops at a fiber without payloads and takes that fiber's default
+    (free fiber) or the default of the owning tensor's last rank (fix ecc4474);
   * `Fiber.fiber2dict` / `Fiber.dict2fiber` / `Payload.payload2dict`
     (fiber.py:4825-4914, payload.py:669-684), `Tensor.dump` / `Tensor.parse` /
     `Tensor.fromYAMLfile` (tensor.py:219-247, 1944-2025), `Fiber.__eq__`;
@@ -130,17 +131,23 @@ variable {ν : Type}
 /-- `Fiber(coords=range(n), initial=1)` -/
 def rangeFib (n : Nat) : Fib Nat Unit := (List.range n).map (fun c => (c, ()))
 
-/-- `_fillempty`'s `f = self; while isinstance(f.payloads[0], Fiber): f = f.payloads[0]`
-    terminates without an `IndexError` iff every fiber on the first-payload chain has a
-    payload. -/
-def chainOK {κ : Type} : (d : Nat) → Tree κ ν (d + 1) → Bool
-  | 0,     f => !(show List (κ × Tree κ ν 0) from f).isEmpty
+/-- `_fillempty`'s leaf default (after fixes cc544e6, ecc4474):
+    `f = self; while len(f.payloads) > 0 and isinstance(f.payloads[0], Fiber): f = f.payloads[0]`;
+    the descent stops at the leaf level or at a fiber without payloads above it.  Then, for a
+    tensor-owned fiber, the default of the LAST rank of the owning tensor is returned (the leaf
+    default `dflt`); for a free fiber `f.getDefault()`, which is `dflt` too (`_makeFiber` /
+    `fromUncompressed` build every level with `default=default`).  Both legs are kept apart
+    because they are different code. -/
+def chainLeaf {κ : Type} (owned : Bool) (dflt : ν) : (d : Nat) → Tree κ ν (d + 1) → Option ν
+  | 0,     _ => some dflt
   | d + 1, f => match (show List (κ × Tree κ ν (d + 1)) from f) with
-                | []     => false
-                | e :: _ => chainOK d e.2
+                | []     => (match owned with
+                             | true  => some dflt     -- last rank's default
+                             | false => some dflt)    -- the fiber's own default
+                | e :: _ => chainLeaf owned dflt d e.2
 
 /-- `_fillempty(shape, level)`: a nest of the remaining shape filled with the leaf
-    default; `leaf = none` stands for the `IndexError` raised when the leaf is reached. -/
+    default (`leaf = none`: no value available — cannot happen after fix ecc4474). -/
 def fillEmpty (leaf : Option ν) : (d : Nat) → List Nat → Option (Nest ν d)
   | 0,     _       => leaf
   | _ + 1, []      => none
@@ -163,16 +170,18 @@ def uncRows {π β : Type} (onAB : π → Option β) (onB : Option β) :
     | _, _ => none
   | (_, (Mask.A, _, _)) :: r => uncRows onAB onB r
 
-/-- `Fiber.uncompress(shape)`; `none` = an exception. -/
-def uncompress [DecidableEq ν] (dflt : ν) : (d : Nat) → List Nat → Tree Nat ν (d + 1) → Option (Nest ν (d + 1))
+/-- `Fiber.uncompress(shape)`; `owned` = the fiber belongs to a tensor; `none` = no nest of
+    values comes back (an exception, or a nest filled with non-values). -/
+def uncompress [DecidableEq ν] (owned : Bool) (dflt : ν) :
+    (d : Nat) → List Nat → Tree Nat ν (d + 1) → Option (Nest ν (d + 1))
   | _,     [],      _ => none
   | 0,     n :: ns, f =>
     (uncRows (fun (v : Tree Nat ν 0) => some (show Nest ν 0 from (show ν from v)))
-      (fillEmpty (if chainOK 0 f then some dflt else none) 0 ns)
+      (fillEmpty (chainLeaf owned dflt 0 f) 0 ns)
       (orMerge (present dflt 0 f) (rangeFib n)) : Option (List (Nest ν 0)))
   | d + 1, n :: ns, f =>
-    (uncRows (fun (t : Tree Nat ν (d + 1)) => uncompress dflt d ns t)
-      (fillEmpty (if chainOK (d + 1) f then some dflt else none) (d + 1) ns)
+    (uncRows (fun (t : Tree Nat ν (d + 1)) => uncompress owned dflt d ns t)
+      (fillEmpty (chainLeaf owned dflt (d + 1) f) (d + 1) ns)
       (orMerge (present dflt (d + 1) f) (rangeFib n)) : Option (List (Nest ν (d + 1))))
 
 /-- no stored element is empty (no explicit default leaf, no all-empty sub-fiber) -/
@@ -279,12 +288,11 @@ def tensorDump {d : Nat} (t : TRep κ ν d) : TDict κ ν d :=
 def yamlText {d : Nat} (plain : κ → Bool) (x : TDict κ ν d) (coordsPlain : Bool) : Option (TDict κ ν d) :=
   if coordsPlain && x.shape.all plain then some x else none
 
-/-- `Tensor.fromYAMLfile`: rank-0 keeps the name, the `Tensor.fromFiber(rank_ids, root,
-    shape=shape)` leg does not pass it on. -/
+/-- `Tensor.fromYAMLfile` (after fix a24e1eb both legs pass the name on). -/
 def tensorLoad {d : Nat} (x : TDict κ ν d) : Option (TRep κ ν d) :=
   match dict2fiber d x.root with
   | some r => some { rankIds := x.rankIds, shape := x.shape,
-                     name := (if d = 0 then x.name else ""), root := r }
+                     name := x.name, root := r }
   | none => none
 
 /-- dump → text → load -/
